@@ -27,7 +27,10 @@ def refuted(work):
     names = [f for f in os.listdir(SPEC) if f.endswith((".tla", ".cfg"))]
     cpath = os.path.join(vlib.VERIF, ".cache", "mc", "pool-refuted-%s.json" % vlib.spec_hash(SPEC, names))
     if os.path.exists(cpath):
-        return json.load(open(cpath))
+        try:
+            return json.load(open(cpath))
+        except ValueError:
+            pass
     out = {}
     for cfg, prop in REFUTED.items():
         r = vlib.run_tlc(SPEC, "Pool", cfg, os.path.join(work, "mc-" + cfg[:-4]), timeout=900)
@@ -35,7 +38,10 @@ def refuted(work):
             raise Infra("Pool.tla under %s should violate %s but TLC says: %s" % (cfg, prop, r["tail"][-800:]))
         out[cfg] = {"violates": prop, "distinct": r["distinct"]}
     os.makedirs(os.path.dirname(cpath), exist_ok=True)
-    json.dump(out, open(cpath, "w"))
+    tmp = "%s.%d.tmp" % (cpath, os.getpid())
+    with open(tmp, "w") as fh:
+        json.dump(out, fh)
+    os.replace(tmp, cpath)
     return out
 
 
